@@ -1248,6 +1248,16 @@ func toString(v interface{}) string {
 		return val.String()
 	}
 
+	// A pointer prints as what it points to, never as an address
+	if rv := reflect.ValueOf(v); rv.Kind() == reflect.Ptr {
+		if rv.IsNil() {
+			return ""
+		}
+		if rv.Elem().Kind() != reflect.Struct && rv.Elem().CanInterface() {
+			return toString(rv.Elem().Interface())
+		}
+	}
+
 	return fmt.Sprintf("%v", v)
 }
 
